@@ -119,18 +119,23 @@ DeliverTo(b, targets, msg) ==
     ELSE DeliverTo([b EXCEPT ![Head(targets)] = Append(@, msg)], Tail(targets), msg)
 
 PolicyTargets == LET s == SelectSeq(rcpts, LAMBDA r : r.store) IN [i \in DOMAIN s |-> s[i].mbox]
+(* a hook that returns the inbound message with its mailbox list untouched:   *)
+(* the list it was shown names every accepted recipient's mailbox, and a      *)
+(* hook's answer overrides the store/discard policy                           *)
+AllTargets    == [i \in DOMAIN rcpts |-> rcpts[i].mbox]
 
 (* The end of the DATA block.  d.parse: header block parseable; d.fits:     *)
 (* within the maximum message size; d.hook: [action |-> "none"] or          *)
-(* [action |-> "replace", mailboxes, msg].  msg is the message as the       *)
+(* [action |-> "replace", mailboxes, msg] / [action |-> "replace-keep", msg]. *)
+(* msg is the message as the                                                *)
 (* store must show it.                                                      *)
 Body(msg, d) ==
     /\ st = "DATA"
     /\ st' = "READY" /\ ClearEnvelope
     /\ IF d.parse /\ d.fits
-       THEN /\ boxes' = IF d.hook.action = "replace"
-                        THEN DeliverTo(boxes, d.hook.mailboxes, d.hook.msg)
-                        ELSE DeliverTo(boxes, PolicyTargets, msg)
+       THEN /\ boxes' = CASE d.hook.action = "replace"      -> DeliverTo(boxes, d.hook.mailboxes, d.hook.msg)
+                          [] d.hook.action = "replace-keep" -> DeliverTo(boxes, AllTargets, d.hook.msg)
+                          [] OTHER                          -> DeliverTo(boxes, PolicyTargets, msg)
             /\ Answer(Ok)
        ELSE /\ UNCHANGED boxes /\ Answer(Fail)
 
